@@ -87,7 +87,7 @@ def showRestrictions (lrs : Restrictions) : String :=
 
 structure St where
   idx : Idx := {}
-  ridx : RIdx := []
+  ridx : RIdxS := {}
 
 def withSel (h : String) (f : Node → St × String) (st : St) : St × String :=
   match unhex h with
@@ -127,16 +127,16 @@ def step (st : St) (line : String) : St × String :=
   | ["restr", h] => withSel h (fun n => (st, showRestrictions (restrictions n))) st
   | ["radd", id, h] =>
     match id.toNat? with
-    | some id => withSel h (fun n => ({ st with ridx := insert id n st.ridx }, "ok")) st
+    | some id => withSel h (fun n => ({ st with ridx := st.ridx.addSelector id n }, "ok")) st
     | none => (st, "bad-op")
   | ["rdel", id] =>
     match id.toNat? with
-    | some id => ({ st with ridx := erase id st.ridx }, "ok")
+    | some id => ({ st with ridx := st.ridx.deleteSelector id }, "ok")
     | none => (st, "bad-op")
   | ["cand", m] =>
     match parseMap m with
     | some m =>
-      let ids := sortStrings ((st.ridx.candidates m).map pad)
+      let ids := dedupStrings (sortStrings ((st.ridx.potentialMatches m).map pad))
       (st, if ids.isEmpty then "-" else joinWith "," ids)
     | none => (st, "bad-op")
   | _ => (st, "bad-op")
